@@ -58,7 +58,7 @@ class Fates:
             if f.f_code.co_filename.endswith("backends/db/__init__.py") and n not in ("wrapper", "wrapped", "with_session"):
                 names.append(n)
             f = f.f_back
-        return ">".join(reversed(names[:3])) or "?"
+        return ">".join(reversed(names)) or "?"      # outermost backend operation first
 
     def _commit(self):
         from sqlalchemy.exc import OperationalError
